@@ -24,6 +24,7 @@ import (
 	"log"
 	"os"
 	"path/filepath"
+	"sort"
 	"strings"
 
 	"github.com/pkg/errors"
@@ -170,7 +171,16 @@ func LoadFiles(files []*BufferedFile) (*chart.Chart, error) {
 		return c, err
 	}
 
-	for n, files := range subcharts {
+	// Iterate in a fixed order so that the resulting dependency list does not
+	// depend on map iteration order.
+	subchartNames := make([]string, 0, len(subcharts))
+	for n := range subcharts {
+		subchartNames = append(subchartNames, n)
+	}
+	sort.Strings(subchartNames)
+
+	for _, n := range subchartNames {
+		files := subcharts[n]
 		var sc *chart.Chart
 		var err error
 		switch {
